@@ -1499,9 +1499,14 @@ func ruleReadPure(c *Ctx) []Obligation {
 				nW++
 				// a store through a pointer parameter writes what the callers hand in the address of: one write per
 				// field so addressed (`e.part(&e.RPC.Input, …)`, `e.part(&e.RPC.Output, …)`)
-				if p, isP := addr.(*ssa.Parameter); isP && fld == "*" {
+				_, isPhiAddr := addr.(*ssa.Phi)
+				if p, isP := addr.(*ssa.Parameter); (isP || isPhiAddr) && fld == "*" {
 					var flds []string
-					if node := c.Graph().Nodes[fn]; node != nil {
+					// … or through a local pointer that holds the address of one field or another
+					// (`slot := &e.RPC.Input; if out { slot = &e.RPC.Output }; *slot = …`)
+					if isPhiAddr {
+						flds = phiFieldKeys(addr)
+					} else if node := c.Graph().Nodes[fn]; node != nil {
 						idx := paramIndex(fn, p)
 						for _, e := range node.In {
 							if e.Caller.Func.Synthetic != "" || e.Site == nil || e.Site.Common().StaticCallee() != fn || idx < 0 || idx >= len(e.Site.Common().Args) {
@@ -2465,4 +2470,67 @@ func isPhiOrHelperCall(v ssa.Value) bool {
 		return true
 	}
 	return len(helperReturns(v)) > 0
+}
+
+// phiFieldKeys: addr is a phi every edge of which is the address of a struct field (through further phis); the keys of
+// those fields, or nil.
+func phiFieldKeys(addr ssa.Value) []string {
+	var out []string
+	seen := map[ssa.Value]bool{}
+	okAll := true
+	var walk func(v ssa.Value)
+	walk = func(v ssa.Value) {
+		if seen[v] {
+			return
+		}
+		seen[v] = true
+		switch x := v.(type) {
+		case *ssa.Phi:
+			for _, e := range x.Edges {
+				walk(e)
+			}
+		case *ssa.FieldAddr:
+			if owner, f, _ := fieldOf(x); f != nil {
+				out = append(out, fieldKey(owner, f))
+			} else {
+				okAll = false
+			}
+		default:
+			okAll = false
+		}
+	}
+	walk(addr)
+	if !okAll {
+		return nil
+	}
+	return out
+}
+
+// phiFieldAddrs: the FieldAddr values a phi of field addresses may hold, or nil when an edge is something else.
+func phiFieldAddrs(addr ssa.Value) []*ssa.FieldAddr {
+	var out []*ssa.FieldAddr
+	seen := map[ssa.Value]bool{}
+	okAll := true
+	var walk func(v ssa.Value)
+	walk = func(v ssa.Value) {
+		if seen[v] {
+			return
+		}
+		seen[v] = true
+		switch x := v.(type) {
+		case *ssa.Phi:
+			for _, e := range x.Edges {
+				walk(e)
+			}
+		case *ssa.FieldAddr:
+			out = append(out, x)
+		default:
+			okAll = false
+		}
+	}
+	walk(addr)
+	if !okAll {
+		return nil
+	}
+	return out
 }
